@@ -88,12 +88,21 @@ def droppedErr (n : Nat) : Option Nat := if n = 0 then none else some n
 def setPending (p : Nat → List β) (r : Nat) (l : List β) : Nat → List β :=
   fun r' => if r' = r then l else p r'
 
+/-- the capacity the model uses. phout's channel may be unbuffered (`sample-queue-size: 0`; nothing validates
+it): a send then completes only together with the aggregator's receive. A one-slot queue has all of those
+behaviours (and a few more: the send may complete slightly before the receive), so what is proved for it holds
+for the rendezvous channel. The encoder aggregators' size is validated `min=1`. -/
+def effCap (cfg : Cfg) : Nat :=
+  match cfg.kind with
+  | .phout => max cfg.cap 1
+  | .encoder => cfg.cap
+
 def step (cfg : Cfg) (st : St β) : Ev → St β
   | .report r =>
     match st.pending r with
     | [] => st
     | x :: rest =>
-      if st.q.length < cfg.cap then
+      if st.q.length < effCap cfg then
         -- `a.sink <- s` / `case a.Incomming <- s:` succeeds
         { st with pending := setPending st.pending r rest, q := st.q ++ [(r, x)],
                   log := st.log ++ [((r, x), true)], late := st.late || st.cancelled }
